@@ -165,6 +165,36 @@ def r_querypure(db, rep):
 def _querypure(db, rep, qmethods, itclasses):
     E = get_effects(db)
     seen = set()
+    # function-local statics in the query closure: a non-const one is hidden state; a const one whose initialiser is computed
+    # from run-time values (the first query's arguments, the dictionary's fields) freezes the first call's value for all later calls
+    roots = [m for _, _, m in qmethods]
+    for it in itclasses:
+        for name in ("hasNext", "next"):
+            roots.extend(db.methods_of(it, name))
+    for fid in sorted(db.closure(roots)):
+        f = db.funcs[fid]
+        if not f.body or f.file.startswith("libcds/"):
+            continue
+        for n in f.live_nodes():
+            if n["k"] != "DeclStmt":
+                continue
+            for d in n["decls"]:
+                if not d.get("static"):
+                    continue
+                rep.ob()
+                is_const = f.types[d["t"]].get("const")
+                ini = d.get("init")
+                dynamic = ini is not None and const_value(ini) is None and any(
+                    x["k"] in ("DeclRefExpr", "MemberExpr", "CXXThisExpr", "CallExpr", "CXXMemberCallExpr") and x.get("dk") not in ("global", "enumconst")
+                    for x in walk(ini))
+                if (not is_const) or dynamic:
+                    key = "%s#static-local-%s" % (f.qn, d["n"])
+                    if key not in seen:
+                        seen.add(key)
+                        rep.viol(key, f.nloc(n),
+                                 "%s, reached from a query, keeps the function-local static `%s`%s: the answer to a query then depends on "
+                                 "earlier queries (and on other dictionaries in the process)" % (
+                                     f.qn, d["n"], " initialised from run-time values on the first call" if is_const else ""), f.qn)
     for k, op, m in qmethods:
         rep.visit(m)
         S = E.sum[m.id]
